@@ -342,7 +342,7 @@ func checkB(it *proto.RTItem, r *proto.RTResult) []proto.Issue {
 	return nil
 }
 
-var FB = &proto.RTFamily{ID: "C15", Gen: genB, Bound: func(string) int { return 1 }}
+var FB = &proto.RTFamily{ID: "C15", Gen: genB, Bound: func(string) int { return 1 }, SecondEvery: 2}
 
 func init() {
 	FB.Check = checkB
